@@ -315,7 +315,7 @@ struct ImmM : Machine {
       case 12: return EvB("set_predicate").n("n", r.below(16)).done();
       case 13: return EvB("reset_predicate").done();
       case 14: return EvB("clone").done();
-      default: { static const char* ex[] = { "sign_extend_int8", "sign_extend_int16", "sign_extend_int32", "zero_extend_uint8", "zero_extend_uint16", "zero_extend_uint32" }; return EvB(ex[r.below(6)]).done(); }
+      default: if (!im.is_int()) return EvB("reset_type").done(); else { static const char* ex[] = { "sign_extend_int8", "sign_extend_int16", "sign_extend_int32", "zero_extend_uint8", "zero_extend_uint16", "zero_extend_uint32" }; return EvB(ex[r.below(6)]).done(); }
     }
   }
 };
